@@ -340,12 +340,14 @@ func (vfs *OrefaFS) Link(oldname, newname string) error {
 
 	nDirName, nFileName := avfs.SplitAbs(vfs, nAbsPath)
 
-	avfs.VerifBeforeLock(&vfs.mu, false)
-	vfs.mu.RLock()
+	// The index stays locked from the lookups to the update (and before any node, as in Mkdir and Remove).
+	avfs.VerifBeforeLock(&vfs.mu, true)
+	vfs.mu.Lock()
+	defer vfs.mu.Unlock()
+
 	oChild, oChildOk := vfs.nodes[oAbsPath]
 	_, nChildOk := vfs.nodes[nAbsPath]
 	nParent, nParentOk := vfs.nodes[nDirName]
-	vfs.mu.RUnlock()
 
 	if !oChildOk {
 		err := vfs.err.NoSuchFile
@@ -353,10 +355,7 @@ func (vfs *OrefaFS) Link(oldname, newname string) error {
 		if vfs.OSType() == avfs.OsWindows {
 			oDirName, _ := avfs.SplitAbs(vfs, oAbsPath)
 
-			avfs.VerifBeforeLock(&vfs.mu, false)
-			vfs.mu.RLock()
 			_, oParentOk := vfs.nodes[oDirName]
-			vfs.mu.RUnlock()
 
 			if !oParentOk {
 				err = vfs.err.NoSuchDir
@@ -401,10 +400,7 @@ func (vfs *OrefaFS) Link(oldname, newname string) error {
 	nParent.mu.Lock()
 	defer nParent.mu.Unlock()
 
-	avfs.VerifBeforeLock(&vfs.mu, true)
-	vfs.mu.Lock()
 	vfs.nodes[nAbsPath] = oChild
-	vfs.mu.Unlock()
 
 	nParent.addChild(nFileName, oChild)
 
@@ -810,13 +806,16 @@ func (vfs *OrefaFS) Rename(oldname, newname string) error {
 	oDirName, oFileName := avfs.SplitAbs(vfs, oAbsPath)
 	nDirName, nFileName := avfs.SplitAbs(vfs, nAbsPath)
 
-	avfs.VerifBeforeLock(&vfs.mu, false)
-	vfs.mu.RLock()
+	// The index stays locked from the lookups to the update (and before any node, as in Mkdir and Remove):
+	// nothing can change in between, and no other call can hold a node while waiting for the index.
+	avfs.VerifBeforeLock(&vfs.mu, true)
+	vfs.mu.Lock()
+	defer vfs.mu.Unlock()
+
 	oChild, oChildOk := vfs.nodes[oAbsPath]
 	oParent, oParentOk := vfs.nodes[oDirName]
 	nChild, nChildOk := vfs.nodes[nAbsPath]
 	nParent, nParentOk := vfs.nodes[nDirName]
-	vfs.mu.RUnlock()
 
 	if !oChildOk || !oParentOk || !nParentOk {
 		return &os.LinkError{Op: op, Old: oldname, New: newname, Err: vfs.err.NoSuchFile}
@@ -861,10 +860,6 @@ func (vfs *OrefaFS) Rename(oldname, newname string) error {
 	nParent.addChild(nFileName, oChild)
 
 	delete(oParent.children, oFileName)
-
-	avfs.VerifBeforeLock(&vfs.mu, true)
-	vfs.mu.Lock()
-	defer vfs.mu.Unlock()
 
 	vfs.nodes[nAbsPath] = oChild
 	delete(vfs.nodes, oAbsPath)
